@@ -652,7 +652,13 @@ def list_method(I, l, name, args, kwargs):
         idx = args[0] if args else -1
         if idx == 0:
             r = smt.SeqNth(sv.t, smt.IntC(0))
-            I.heap[l.oid] = SSeqV(smt.SeqExtract(sv.t, smt.IntC(1), smt.Sub(n, smt.IntC(1))), sv.ety)
+            rest = smt.SeqExtract(sv.t, smt.IntC(1), smt.Sub(n, smt.IntC(1)))
+            I.heap[l.oid] = SSeqV(rest, sv.ety)
+            # a fact of the sequence theory, stated so that quantifier instantiation does not depend on the
+            # sequence solver rewriting nth-of-extract first: rest[q] = old[q + 1]
+            q = smt.fresh_bound('q', INT)
+            I.assume(smt.ForAll([q], smt.Implies(smt.And(smt.Le(smt.IntC(0), q), smt.Lt(q, smt.Sub(n, smt.IntC(1)))),
+                                                 smt.Eq(smt.SeqNth(rest, q), smt.SeqNth(sv.t, smt.Add(q, smt.IntC(1)))))))
         elif idx == -1:
             r = smt.SeqNth(sv.t, smt.Sub(n, smt.IntC(1)))
             I.heap[l.oid] = SSeqV(smt.SeqExtract(sv.t, smt.IntC(0), smt.Sub(n, smt.IntC(1))), sv.ety)
